@@ -100,6 +100,14 @@ def run(chk):
     crosscheck(chk, hl._add, cases, "_add")
     crosscheck(chk, hl._merge, [(np.array([rng.randrange(60) for _ in range(8)], np.uint8), np.array([rng.randrange(60) for _ in range(8)], np.uint8), 8) for _ in range(5)], "_merge")
     crosscheck(chk, hl._add_ngram, [(np.zeros(128, np.uint8), 3, 7, 128, b"abcdefg", n) for n in (1, 3, 7, 9)], "_add_ngram")
+    from . import _glue, _oracle
+
+    _glue.glue_part(chk, ["HyperLogLog"], {"add", "add_ngram", "update", "update_ngram"}, lambda: _oracle.hll_history(chk, 60))
+    hn = 15 if chk.tier == "quick" else 400
+    hb = _oracle.hll_history(chk, hn)
+    if hb:
+        chk.violation("HyperLogLog:bounded:history-oracle", {"verdict": "bounded oracle failed"}, hb)
+    chk.bounded_standin("random histories on the real HyperLogLog: registers equal the fresh sketch fed each distinct key once", "%d histories" % hn, hn, int(bool(hb)))
     # bounded stand-in: run-time evaluation of the contracts on the real kernels
     n = 40 if chk.tier == "quick" else 1500
     bad = runtime_cases(chk, rng, n)
